@@ -459,6 +459,29 @@ func runCowProp(c *Ctx, prop string) {
 		} {
 			cowCase(c, fmt.Sprintf("kind%d", ki), "cow(mem,mem)", items, prop)
 		}
+		// a directory with many entries in both layers (sorting / merging code behaves differently
+		// beyond a dozen elements): every listed entry describes the overlay's file where there is one
+		for _, nboth := range []int{7, 13, 40} {
+			var items []string
+			items = append(items, "0 - MkdirAll 2f626967 493", "1 - MkdirAll 2f626967 493")
+			slot := 0
+			for q := 0; q < nboth+4; q++ {
+				name := hx([]byte(fmt.Sprintf("/big/f%03d", q)))
+				if q < nboth || q%2 == 0 {
+					items = append(items, fmt.Sprintf("0 %d Create %s", slot, name), fmt.Sprintf("0 - HWrite %d 62617365", slot), fmt.Sprintf("0 - HClose %d", slot),
+						fmt.Sprintf("0 - Chtimes %s 1000000000", name))
+					slot++
+				}
+				if q < nboth || q%2 == 1 {
+					items = append(items, fmt.Sprintf("1 %d Create %s", slot, name), fmt.Sprintf("1 - HWrite %d 6f7665726c61792121", slot), fmt.Sprintf("1 - HClose %d", slot),
+						fmt.Sprintf("1 - Chtimes %s 1000000000", name))
+					slot++
+				}
+			}
+			items = append(items, "0 - Chtimes 2f626967 1000000000", "1 - Chtimes 2f626967 1000000000", "0 - Chtimes 2f 1000000000", "1 - Chtimes 2f 1000000000",
+				". - Stat 2f626967", fmt.Sprintf(". %d Open 2f626967", slot), fmt.Sprintf(". - HReaddirnames %d -1", slot), fmt.Sprintf(". - HClose %d", slot))
+			cowCase(c, fmt.Sprintf("many%d", nboth), "cow(mem,mem)", items, prop)
+		}
 		runOSOverlay(c)
 		c.Extra["big_files"] = "copy-up of files of 32767..98304 bytes (zeros, zero tail, no zeros), one byte modified, read back"
 	}
